@@ -78,6 +78,32 @@ def _section_of(ln):
     return None
 
 
+ALIGN_DIRS = ('.align', '.balign', '.p2align')
+
+
+def _outside_section(lines, want):
+    """Directives that act on the location counter (alignment, data, labels, instructions) apply to whatever section is
+    current where they stand.  The first such line of `lines` that is not governed by a section directive of `lines`
+    selecting `want`: (line, section in effect | None = inherited from whatever was emitted before) or None."""
+    cur = None
+    for l in lines:
+        s = _section_of(l)
+        if s is not None:
+            cur = s
+            continue
+        acts = l.kind in ('label', 'ins') or (l.kind == 'dir' and l.head in ALIGN_DIRS + DATA_DIRS)
+        if acts and cur != want:
+            return l, cur
+    return None
+
+
+def _outside_doc(l, cur, want, what):
+    where = ('before any section directive of this %s: it acts on the section left current by the previously emitted object' % what) if cur is None else \
+            ('while .%s is the current section' % cur)
+    kindw = 'alignment padding' if l.head in ALIGN_DIRS else ('a label' if l.kind == 'label' else ('an instruction' if l.kind == 'ins' else 'data'))
+    return '`%s` (%s) is emitted %s, not in .%s' % (l.text.strip(), kindw, where, want)
+
+
 def _binding(lines, namekey):
     """(binding, first_index_of_binding_directive, problem) for the symbol, from its directives:
     global iff .globl; else local iff .local or not a common symbol"""
@@ -141,7 +167,7 @@ def r151(cg, rep):
     rep.rule('R15.1', 'emit_data decision table: an object is skipped iff it is a function or not a definition; every emitted object gets '
              'local binding iff is_static (else .globl), declared before its .comm/label; .comm iff -fcommon and tentative; else '
              '.data/.bss x thread-local by initialiser and is_tls, with @object type, size, max(16,align) for arrays >= 16 bytes; '
-             'the list walk continues after every kind of object', floor=28)
+             'every alignment/data directive and the label stand under the object\'s own section directive; the list walk continues after every kind of object', floor=32)
     _need(cg.cu, CGU, 'emit_data')
     fn = cg.cu.fn('emit_data')
     fline = fn.line
@@ -298,6 +324,14 @@ def _judge_data_path(it, ctx, ag, cls, fl, fcommon, has_init, tyname, NAME1, NAM
                 elif msg is None:
                     alignv = (op_val(al[0].ops[0]) if al[0].ops else None, al[0].src_line)
         ag.note(pkey, msg is None, msg or '', (labels[0].src_line if labels else fline), facts)
+        # every directive of the object that moves the location counter stands under the object's own section directive
+        if not comm and len(labels) == 1 and secs and not any(s.startswith('bad:') for _, s in secs) and \
+                [s for i, s in secs if i < body.index(labels[0])][-1:] == [wantsec]:
+            out = _outside_section(body, wantsec)
+            ag.note('in-section/' + cls, out is None,
+                    out and (_outside_doc(out[0], out[1], wantsec, 'object') + (': the padding goes to the other section and the object itself starts at an unaligned '
+                             'offset of .%s whenever the previous object lives elsewhere' % wantsec if out[0].head in ALIGN_DIRS else '')) or '',
+                    (out[0].src_line if out else labels[0].src_line), facts)
         if msg is None:
             ty = [l for l in body if l.kind == 'dir' and l.head == '.type' and l.ops and op_is(l.ops[0], A, NAME1)]
             sz = [l for l in body if l.kind == 'dir' and l.head == '.size' and l.ops and op_is(l.ops[0], A, NAME1)]
@@ -331,7 +365,7 @@ def _show(fl, fcommon, has_init):
 # =============================================================================================
 def r152(cg, rep):
     rep.rule('R15.2', 'emit_text: a function is emitted iff is_function and is_definition and is_live; binding by is_static; in .text, '
-             'typed @function, one entry label; current_fn designates it while its body is generated; the walk continues after every kind of entry', floor=14)
+             'typed @function, one entry label, nothing that moves the location counter before the .text directive; current_fn designates it while its body is generated; the walk continues after every kind of entry', floor=15)
     _need(cg.cu, CGU, 'emit_text', 'codegen')
     fn = cg.cu.fn('emit_text')
     fline = fn.line
@@ -415,6 +449,9 @@ def r152(cg, rep):
             elif any(l.kind == 'ins' for l in mine[:li]):
                 msg = 'instructions precede the entry label'
             ag.note('section/text', msg is None, msg or '', mine[li].src_line, facts)
+            if msg is None:
+                out = _outside_section(mine, 'text')
+                ag.note('in-section/text', out is None, out and _outside_doc(out[0], out[1], 'text', 'function') or '', (out[0].src_line if out else mine[li].src_line), facts)
             ty = [l for l in mine if l.kind == 'dir' and l.head == '.type' and l.ops and op_is(l.ops[0], A, NAME1)]
             ag.note('type/function', bool(ty) and len(ty[0].ops) > 1 and ty[0].ops[1][0] in ('@function', '%function'),
                     'the symbol is not typed @function (%s): it is not callable through the PLT of a shared object and tools treat it as data' % ([l.text.strip() for l in ty] or 'no .type'),
